@@ -1,7 +1,7 @@
 (* C16 - libavoid geometry predicates agree with exact arithmetic.
    Only statements closed by `exact`; the proofs live in Geom/GeomProofs.v and are about the
    definitions regenerated from /repo/cola/libavoid/geometry.{h,cpp} by tools/cpp2v.py. *)
-From Adapt Require Import Num.Qaux Geom.GeomSpec Gen.Geometry Geom.GeomProofs.
+From Adapt Require Import Num.Qaux Geom.GeomSpec Geom.GeomSpecDec Gen.Geometry Geom.GeomProofs.
 Local Open Scope Q_scope.
 
 Theorem C16_vecDir_spec a b c :
@@ -38,3 +38,75 @@ Print Assumptions C16_vecDir_antisymmetric.
 Theorem C16_pointOnLine_symmetric a b c : pointOnLine b a c 0 = pointOnLine a b c 0.
 Proof. exact (pointOnLine_sym a b c). Qed.
 Print Assumptions C16_pointOnLine_symmetric.
+
+(* ---- C16 extension: intersection points *)
+Theorem C16_segmentIntersectPoint_spec a1 a2 b1 b2 x y :
+  segmentIntersectPoint_meaning a1 a2 b1 b2 x y (segmentIntersectPoint a1 a2 b1 b2 x y).
+Proof. exact (segmentIntersectPoint_spec a1 a2 b1 b2 x y). Qed.
+Print Assumptions C16_segmentIntersectPoint_spec.
+
+Theorem C16_rayIntersectPoint_spec a1 a2 b1 b2 x y :
+  rayIntersectPoint_meaning a1 a2 b1 b2 x y (rayIntersectPoint a1 a2 b1 b2 x y).
+Proof. exact (rayIntersectPoint_spec a1 a2 b1 b2 x y). Qed.
+Print Assumptions C16_rayIntersectPoint_spec.
+
+(* ---- C16 extension: colinear, inBetween, cornerSide, inValidRegion *)
+Theorem C16_colinear_spec a b c : colinear a b c 0 = true <-> cross a b c == 0.
+Proof. exact (colinear_spec a b c). Qed.
+Print Assumptions C16_colinear_spec.
+
+Theorem C16_inBetween_spec a b c :
+  cross a b c == 0 -> (px a == px b \/ dbl_epsilon < Qabs' (px a - px b)) ->
+  (inBetween a b c = true <-> strictly_between a b c).
+Proof. exact (inBetween_collinear_spec a b c). Qed.
+Print Assumptions C16_inBetween_spec.
+
+Theorem C16_cornerSide_spec c1 c2 c3 p : cornerSide_meaning c1 c2 c3 p (cornerSide c1 c2 c3 p).
+Proof. exact (cornerSide_spec c1 c2 c3 p). Qed.
+Print Assumptions C16_cornerSide_spec.
+
+Theorem C16_inValidRegion_spec ig a0 a1 a2 b :
+  inValidRegion_meaning ig a0 a1 a2 b (inValidRegion ig a0 a1 a2 b).
+Proof. exact (inValidRegion_spec ig a0 a1 a2 b). Qed.
+Print Assumptions C16_inValidRegion_spec.
+
+(* ---- C16 extension: segmentShapeIntersect (touching at an end point is allowed once per shape) *)
+Theorem C16_segmentShapeIntersect_spec e1 e2 s1 s2 seen :
+  segmentShapeIntersect_meaning e1 e2 s1 s2 seen (segmentShapeIntersect e1 e2 s1 s2 seen).
+Proof. exact (segmentShapeIntersect_spec e1 e2 s1 s2 seen). Qed.
+Print Assumptions C16_segmentShapeIntersect_spec.
+
+Theorem C16_shapeBlocks_closed e1 e2 edges :
+  shapeBlocks e1 e2 edges =
+  existsb (fun edge => segmentIntersect e1 e2 (fst edge) (snd edge)) edges || (2 <=? spec_touchCount e1 e2 edges)%nat.
+Proof. exact (shapeBlocks_closed e1 e2 edges). Qed.
+Print Assumptions C16_shapeBlocks_closed.
+
+(* ---- C16 extension: manhattanDist, projection *)
+Theorem C16_manhattanDist_spec a b : manhattanDist a b == Qabs (px a - px b) + Qabs (py a - py b).
+Proof. exact (manhattanDist_spec a b). Qed.
+Print Assumptions C16_manhattanDist_spec.
+
+Theorem C16_projection_spec a b c : ~ pt_eq a c ->
+  is_foot a c b (projection a b c) /\ forall p, is_foot a c b p -> pt_eq p (projection a b c).
+Proof. exact (projection_spec a b c). Qed.
+Print Assumptions C16_projection_spec.
+
+(* ---- C16 extension: inPolyGen *)
+Theorem C16_inPolyGen_eq_crossing_parity P q : inPolyGen P q = spec_inPolyGen P q.
+Proof. exact (inPolyGen_eq_spec P q). Qed.
+Print Assumptions C16_inPolyGen_eq_crossing_parity.
+
+Theorem C16_inPolyGen_vertex P q : (exists p, In p P /\ pt_eq p q) -> inPolyGen P q = true.
+Proof. exact (inPolyGen_vertex P q). Qed.
+Print Assumptions C16_inPolyGen_vertex.
+
+Theorem C16_inPolyGen_triangle A B C q : ~ cross A B C == 0 ->
+  (inPolyGen [A; B; C] q = true <-> in_closed_triangle A B C q).
+Proof. exact (inPolyGen_triangle A B C q). Qed.
+Print Assumptions C16_inPolyGen_triangle.
+
+Theorem C16_inPolyGen_rect x0 x1 y0 y1 o q : x0 < x1 -> y0 < y1 -> In o rect_orders ->
+  (inPolyGen (rect_poly o x0 x1 y0 y1) q = true <-> in_closed_rect x0 x1 y0 y1 q).
+Proof. exact (inPolyGen_rect x0 x1 y0 y1 o q). Qed.
+Print Assumptions C16_inPolyGen_rect.
